@@ -125,6 +125,11 @@ def load_known():
 class Report:
     def __init__(self, prop, tier, seed, level="proof"):
         self.prop, self.tier, self.seed, self.level = prop, tier, seed, level
+        try:    # the level written to the evidence is the category claimed in MANIFEST.json (one source: check/registry.py)
+            from . import registry
+            self.level = registry.CLAIMS[prop]["category"]
+        except Exception:
+            pass
         self.t0 = time.time()
         self.obligations = []          # (name, ok, detail)
         self.direct = []               # (signature, description, replay_text)
